@@ -5,8 +5,37 @@ import json
 import os
 from collections import Counter
 
+import threading
+
 import vlib
-from vlib import coq_literal_bytes as cb, coq_bool, coq_list
+from vlib import coq_bool, coq_list
+
+# Byte-string literals dominate the cost of a cases file (coqc parses ~25 k literal bytes per second) and an iter case
+# repeats every key in the store dump, the iterators' results, the recorded writes and the exports: inside one file every
+# distinct byte string of 6+ bytes is defined once (`Definition b_17 : bytes := [...]`) and referred to by name.
+_tl = threading.local()
+
+
+def cb(b):
+    t = getattr(_tl, 'intern', None)
+    if t is None or len(b) < 6:
+        return vlib.coq_literal_bytes(b)
+    n = t.get(b)
+    if n is None:
+        n = 'b_%d' % len(t)
+        t[b] = n
+    return n
+
+
+def with_interning(build):
+    """build() -> text using cb(); returns the definitions of the interned byte strings followed by that text"""
+    _tl.intern = {}
+    try:
+        body = build()
+        defs = ''.join('Definition %s : bytes := %s.\n' % (n, vlib.coq_literal_bytes(b)) for b, n in _tl.intern.items())
+    finally:
+        _tl.intern = None
+    return defs + body
 
 HEADER = ('From Teleport Require Import Base.Bytes Base.Outcome Base.Fmt Base.AbiSchema Gen.KeysGen Gen.AbiSchemaGen '
           'Model.Keys Model.Abi Model.EncodingCheck.\nLocal Open Scope N_scope.\n')
@@ -35,16 +64,25 @@ KINDS = {
     35: 'the value decoded from an accepted input is not stable under re-encoding and decoding',
     36: 'a chain-name validator accepts a name containing the separator "/" (or the empty name): the key theorems\' hypothesis fails',
     37: 'the bytes emitted by the packet contract (packet, or the transfer / call data inside) are not reproduced by decoding and re-encoding',
+    23: 'tendermint ExportMetadata: model and code disagree', 24: 'bsc ExportMetadata: model and code disagree',
+    25: 'eth ExportMetadata: model and code disagree', 26: 'GetAllClientMetadata: model and code disagree',
+    27: 'GetAllPacketCommitmentsByPath: model and code disagree', 28: 'bsc DeleteAllSigner: model and code disagree',
     41: 'two different argument tuples of one key builder give the same key',
     42: 'keys of two different families of the xibc store collide',
     43: 'a written consensus state is not read back by IterateConsensusStates (or something else is)',
     44: 'a written client state is not read back by IterateClients (or something else is)',
-    45: 'a written processed time is not read back by IterateProcessedTime',
+    45: 'IterateProcessedTime does not hand out exactly the written processed-time entries (key and value): one is missing, or '
+        'another stored key is read as a processed time',
     46: 'a written iteration key is not read back by tendermint IterateConsensusStateAscending',
     47: 'a written consensus state is not read back by bsc/eth IterateConsensusStateAscending',
     48: 'a written recent signer is not read back by GetRecentSigners',
     49: 'a written packet commitment is not read back', 50: 'a written acknowledgement is not read back',
     51: 'a written receipt is not read back', 52: 'a written next-send sequence is not read back',
+    53: 'ExportMetadata of a client type does not return exactly the metadata entries written for that type (an entry is missing, or '
+        'another stored key is exported as metadata)',
+    54: 'GetAllClientMetadata does not return exactly the metadata of every client under its own chain name',
+    55: 'GetAllPacketCommitmentsByPath(src, dst) does not return exactly the commitments written for that source and destination',
+    56: 'bsc DeleteAllSigner leaves a written recent-signer entry behind (or fails): the key is not read back as the height it was written for',
 }
 
 # Go key builder -> (id, KeysGen term, hashed?)
@@ -134,6 +172,16 @@ def cl_keys(o):
     return '(%s, %s)' % (nat(o.get('class', 0)), coq_list([cb(hx(x)) for x in (o.get('keys') or [])]))
 
 
+def entries(keys, vals):
+    keys, vals = keys or [], vals or []
+    return coq_list(['(%s, %s)' % (cb(hx(k)), cb(hx(vals[i] if i < len(vals) else ''))) for i, k in enumerate(keys)])
+
+
+def cl_entries(o):
+    o = o or {}
+    return '(%s, %s)' % (nat(o.get('class', 0)), entries(o.get('keys'), o.get('vals')))
+
+
 def case_term(r):
     k, sp, ob = r['kind'], r['spec'], r['obs']
     if k == 'abi':
@@ -163,26 +211,38 @@ def case_term(r):
         return '(CParse %s %s %s %s)' % (nat(PARSEFNS[sp['fn']]), cb(hx(sp['input'])), nat(ob['class']), fvals(ob.get('out')))
     if k == 'iter':
         tys = {'tm': 0, 'bsc': 1, 'eth': 2}
-        cls = coq_list(['{| cl_name := %s; cl_type := %s; cl_heights := %s; cl_signers := %s; cl_pending := %s |}' % (
+        cls = coq_list(['{| cl_name := %s; cl_type := %s; cl_heights := %s; cl_signers := %s; cl_pending := %s; cl_eth := %s; '
+                        'cl_raw := %s |}' % (
             cb(hx(c['name'])), nat(tys[c['type']]), coq_list([height(h) for h in (c.get('heights') or [])]),
-            coq_list([height(h) for h in (c.get('signers') or [])]), coq_bool(c.get('pending', False)))
+            coq_list([height(h) for h in (c.get('signers') or [])]), coq_bool(c.get('pending', False)),
+            coq_list(['(%s, %s, %d)' % (cb(hx(e[0])), cb(hx(e[1])), int(e[2])) for e in (c.get('eth_entries') or [])]),
+            coq_list([cb(hx(k)) for k in (c.get('raw') or [])]))
             for c in (sp.get('clients') or [])])
-        spec = ('{| is_clients := %s; is_commit := %s; is_acks := %s; is_receipts := %s; is_nextseq := %s; is_relayers := %s |}' % (
+        spec = ('{| is_clients := %s; is_commit := %s; is_acks := %s; is_receipts := %s; is_nextseq := %s; is_relayers := %s; '
+                'is_bypath := %s |}' % (
             cls, coq_list([triple(t) for t in (sp.get('commitments') or [])]), coq_list([triple(t) for t in (sp.get('acks') or [])]),
             coq_list([triple(t) for t in (sp.get('receipts') or [])]), coq_list([triple(t) for t in (sp.get('nextseq') or [])]),
-            coq_list([cb(hx(a)) for a in (sp.get('relayers') or [])])))
-        per = coq_list(['{| co_keys := %s; co_ptime := %s; co_tm_asc := %s; co_evm_asc := %s; co_eth_asc := %s; co_signers := %s |}' % (
-            coq_list([cb(hx(x)) for x in (p.get('store_keys') or [])]), cl_keys(p.get('ptime')), cl_items(p.get('tm_asc'), height),
-            cl_items(p.get('evm_asc'), height), cl_items(p.get('eth_asc'), height), cl_items(p.get('signers'), height))
+            coq_list([cb(hx(a)) for a in (sp.get('relayers') or [])]),
+            coq_list(['(%s, %s)' % (cb(hx(p[0])), cb(hx(p[1]))) for p in (sp.get('by_path') or [])])))
+        per = coq_list(['{| co_keys := %s; co_ptime := %s; co_tm_asc := %s; co_evm_asc := %s; co_eth_asc := %s; co_signers := %s; '
+                        'co_written := %s; co_exp_tm := %s; co_exp_bsc := %s; co_exp_eth := %s; co_signers_left := %s |}' % (
+            coq_list([cb(hx(x)) for x in (p.get('store_keys') or [])]), cl_entries(p.get('ptime')), cl_items(p.get('tm_asc'), height),
+            cl_items(p.get('evm_asc'), height), cl_items(p.get('eth_asc'), height), cl_items(p.get('signers'), height),
+            coq_list(['(%s, (%s, %s))' % (nat(w['tag']), cb(hx(w['key'])), cb(hx(w['val']))) for w in (p.get('written') or [])]),
+            cl_entries(p.get('exp_tm')), cl_entries(p.get('exp_bsc')), cl_entries(p.get('exp_eth')), cl_keys(p.get('signers_left')))
             for p in (ob.get('per_client') or [])])
         rel = ob.get('relayers') or {}
+        am = ob.get('all_meta') or {}
+        allmeta = '(%s, %s)' % (nat(am.get('class', 0)), coq_list(
+            ['(%s, %s)' % (cb(hx(m['name'])), entries(m.get('keys'), m.get('vals'))) for m in (am.get('items') or [])]))
         obs = ('{| io_base := %s; io_keys := %s; io_cons := %s; io_clients := %s; io_per := %s; io_commit := %s; io_acks := %s; '
-               'io_receipts := %s; io_nextseq := %s; io_relayers := (%s, %s) |}' % (
+               'io_receipts := %s; io_nextseq := %s; io_relayers := (%s, %s); io_allmeta := %s; io_bypath := %s |}' % (
                    coq_list([cb(hx(x)) for x in (ob.get('base_keys') or [])]), coq_list([cb(hx(x)) for x in (ob.get('store_keys') or [])]),
                    cl_items(ob.get('cons'), lambda x: '(%s, %s)' % (cb(hx(x[0])), height(x[1:]))),
                    cl_items(ob.get('clients'), lambda x: cb(hx(x))), per,
                    cl_items(ob.get('commitments'), triple), cl_items(ob.get('acks'), triple), cl_items(ob.get('receipts'), triple),
-                   cl_items(ob.get('nextseq'), triple), nat(rel.get('class', 0)), nat(rel.get('n', 0))))
+                   cl_items(ob.get('nextseq'), triple), nat(rel.get('class', 0)), nat(rel.get('n', 0)), allmeta,
+                   coq_list([cl_items(x, triple) for x in (ob.get('by_path') or [])])))
         return '(CIter %s %s)' % (spec, obs)
     if k == 'contract':
         if ob.get('class') != 0:
@@ -197,33 +257,58 @@ def case_term(r):
     raise ValueError('unknown case kind %r' % k)
 
 
-SHARD = 250
+SHARD = 100       # cases per evaluation file (mismatches + per-case monitors)
+SHARD_WEIGHT = 150000
+KEY_SHARD = 1200  # key cases per collision file (pairwise monitor 41/42 over ALL key cases of the run, corpus first)
 
 
 def evaluate(workdir, results, tag='cases'):
-    """returns (mismatches, monitor_failures) as lists of (case index, kind), or (None, log) on a Coq failure"""
-    shards = [results[i:i + SHARD] for i in range(0, len(results), SHARD)]
+    """returns (mismatches, monitor_failures) as lists of (case index, kind), or (None, log) on a Coq failure.
+    Per-case comparisons run in shards of SHARD cases; the pairwise key-collision monitor runs on the key cases alone
+    (all of them together, in chunks of KEY_SHARD) so that it does not depend on how the other cases are sharded."""
+    # shards of at most SHARD cases and at most SHARD_WEIGHT characters of observations (iter cases are heavy)
+    jobs, cur, w, start = [], [], 0, 0
+    for i, r in enumerate(results):
+        wr = len(json.dumps(r['obs'])) + len(json.dumps(r['spec']))
+        if cur and (len(cur) >= SHARD or w + wr > SHARD_WEIGHT):
+            jobs.append(('c', start, cur))
+            cur, w, start = [], 0, i
+        cur.append(r)
+        w += wr
+    if cur:
+        jobs.append(('c', start, cur))
+    keyidx = [i for i, r in enumerate(results) if r['kind'] == 'key']
+    for j in range(0, len(keyidx), KEY_SHARD):
+        jobs.append(('k', j, keyidx[j:j + KEY_SHARD]))
 
-    def one(ix):
-        i, sh = ix
-        defs = 'Definition cases : list ccase := %s.\n' % coq_list([case_term(r) for r in sh])
-        res = vlib.coq_eval_lists(workdir, '%s_%d.v' % (tag, i), HEADER, defs,
-                                  [('M', 'mismatches cases'), ('F', 'monitor_failures %s cases' % FULL_IDS)])
-        m = vlib.parse_nat_tuples(res.get('M'), 2)
+    def one(job):
+        typ, off, payload = job
+        if typ == 'c':
+            defs = with_interning(lambda: 'Definition cases : list ccase := %s.\n' % coq_list([case_term(r) for r in payload]))
+            res = vlib.coq_eval_lists(workdir, '%s_%d.v' % (tag, off), HEADER, defs,
+                                      [('M', 'mismatches cases'), ('F', 'monitor_failures [] cases')])
+            m = vlib.parse_nat_tuples(res.get('M'), 2)
+            f = vlib.parse_nat_tuples(res.get('F'), 2)
+            if res['_rc'] != 0 or m is None or f is None:
+                return ('error', res['_out'][-3000:])
+            # (key collisions inside this shard are reported by the key job; drop them here to avoid duplicates)
+            return ([(c + off, k) for c, k in m], [(c + off, k) for c, k in f if k not in (41, 42)])
+        defs = with_interning(lambda: 'Definition cases : list ccase := %s.\n' % coq_list([case_term(results[i]) for i in payload]))
+        res = vlib.coq_eval_lists(workdir, '%s_keys_%d.v' % (tag, off // KEY_SHARD), HEADER, defs,
+                                  [('F', 'key_collisions %s cases' % FULL_IDS)])
         f = vlib.parse_nat_tuples(res.get('F'), 2)
-        if res['_rc'] != 0 or m is None or f is None:
+        if res['_rc'] != 0 or f is None:
             return ('error', res['_out'][-3000:])
-        off = i * SHARD
-        return ([(c + off, k) for c, k in m], [(c + off, k) for c, k in f])
+        return ([], [(payload[c], k) for c, k in f])
 
-    outs = vlib.parallel(one, list(enumerate(shards)), workers=12)
+    outs = vlib.parallel(one, jobs, workers=12)
     mm, ff = [], []
     for o in outs:
         if o[0] == 'error':
             return None, o[1]
         mm += o[0]
         ff += o[1]
-    return mm, ff
+    return sorted(mm), sorted(ff)
 
 
 def build_harness():
@@ -275,7 +360,7 @@ def still_fails(workdir, case, kinds, tag='shrink'):
 def shrink(workdir, case, kind):
     """greedy shrinking of a single failing case (re-running the real code each time)"""
     best = json.loads(json.dumps(dict(kind=case['kind'], spec=case['spec'])))
-    budget = 14
+    budget = 24
 
     def attempt(cand):
         nonlocal best, budget
@@ -297,7 +382,7 @@ def shrink(workdir, case, kind):
                 attempt(cand)
     elif k == 'iter':
         sp = best['spec']
-        for fam in ('commitments', 'acks', 'receipts', 'nextseq', 'relayers'):
+        for fam in ('commitments', 'acks', 'receipts', 'nextseq', 'relayers', 'by_path'):
             if sp.get(fam):
                 cand = json.loads(json.dumps(best))
                 cand['spec'][fam] = []
@@ -324,7 +409,7 @@ def shrink(workdir, case, kind):
             if changed:
                 continue
             for i, c in enumerate(cl):
-                for fld in ('heights', 'signers'):
+                for fld in ('heights', 'signers', 'eth_entries', 'raw'):
                     for j in range(len(c.get(fld) or [])):
                         cand = json.loads(json.dumps(best))
                         del cand['spec']['clients'][i][fld][j]
@@ -442,6 +527,18 @@ def coverage(run, results, mm, ff):
             dist['iter_packet_keys_written'] += sum(len(sp.get(f) or []) for f in ('commitments', 'acks', 'receipts', 'nextseq'))
             for c in sp.get('clients') or []:
                 dist['iter_client_' + c['type']] += 1
+                dist['iter_raw_metadata_keys'] += len(c.get('raw') or [])
+                dist['iter_eth_entries'] += len(c.get('eth_entries') or [])
+                dist['iter_signers_written'] += len(c.get('signers') or [])
+            dist['iter_heights_spelling_a_key_literal'] += sum(1 for h in hs if spells_literal(h))
+            dist['iter_by_path_queries'] += len(sp.get('by_path') or [])
+            for pc in ob.get('per_client') or []:
+                dist['iter_processed_time_entries_read'] += len((pc.get('ptime') or {}).get('keys') or [])
+                dist['iter_metadata_entries_exported'] += sum(len((pc.get(e) or {}).get('keys') or []) for e in ('exp_tm', 'exp_bsc', 'exp_eth'))
+                for e in ('ptime', 'tm_asc', 'evm_asc', 'eth_asc', 'signers', 'signers_left'):
+                    cl = (pc.get(e) or {}).get('class', 0)
+                    if cl:
+                        dist['iter_%s_class_%d' % (e, cl)] += 1
             if hs or any(sp.get(f) for f in ('commitments', 'acks', 'receipts', 'nextseq')):
                 nontrivial.add(json.dumps(sp, sort_keys=True))
     samples = []
@@ -452,12 +549,23 @@ def coverage(run, results, mm, ff):
             samples.append(dict(kind=r['kind'], spec=r['spec']))
     run.coverage.update(dict(
         evaluations=len(results), distinct_nontrivial=len(nontrivial),
-        rule='one evaluation = one case run on the real code and on the model inside Coq (abi: ABIPack+ABIDecode+re-pack of a generated '
+        rule='one evaluation = one case run on the real code and on the model inside Coq; the directed corpus (corpus_cases, seed-independent) '
+             'comes first, then the generated cases (abi: ABIPack+ABIDecode+re-pack of a generated '
              'value; abiraw: ABIDecode of a mutated/non-canonical input; key: one Go key builder call; parse: one Go key parser call; name: '
-             'the three chain-name validators; commit: CommitPacket of two packets; iter: a real store populated through the keepers and '
-             'read by every iterator; contract: a real cross-chain call through the endpoint/packet contracts, the emitted packet bytes decoded and '
+             'the three chain-name validators; commit: CommitPacket of two packets; iter: a real store populated through the keepers, the '
+             'light clients\' setters and SetAllClientMetadata and read by every iterator of the keepers and of all three client types, '
+             'ExportMetadata, GetAllClientMetadata, DeleteAllSigner, GetAllPacketCommitmentsByPath; contract: a real cross-chain call through the endpoint/packet contracts, the emitted packet bytes decoded and '
              're-encoded). Non-trivial = distinct spec with at least one non-zero field / key / written entry',
         distribution=dict(sorted(dist.items())), model_mismatches=len(mm), monitor_failures=len(ff), samples=samples))
+
+
+LITERALS = [b'/processedTime', b'clientState', b'consensusStates', b'iterateConsensusStates', b'recentSingers/', b'pendingValidators',
+            b'ethHeaderIndex/', b'ethRootMain/', b'clients']
+
+
+def spells_literal(h):
+    b = int(h[0]).to_bytes(8, 'big') + int(h[1]).to_bytes(8, 'big')
+    return any(b.endswith(l[-16:]) or b.startswith(l[:16]) or (len(l) <= 14 and l in b) for l in LITERALS)
 
 
 def is_utf8(b):
@@ -476,9 +584,17 @@ def report_case_failures(run, results, ff, mm):
         reported.add((c, 'f'))
         r = results[c]
         if k in (41, 42):
-            run.violation(dict(kind='monitor', code=k, what=KINDS.get(k), case=dict(kind=r['kind'], spec=r['spec']), observed=r['obs'],
-                               explanation='this key case collides with another case of the same run (see the evidence shard)'),
-                          name='replay_c%d.json' % c)
+            # a collision is a property of a PAIR of key cases: the replay file holds both (replay() re-runs both builders)
+            partner = next((q for j, q in enumerate(results) if j != c and q['kind'] == 'key' and q['obs'].get('class') == 0
+                            and q['obs'].get('out') == r['obs'].get('out')
+                            and (q['spec']['fn'] != r['spec']['fn'] or q['spec'].get('args') != r['spec'].get('args'))), None)
+            if partner is not None:
+                run.violation(dict(kind='key-collision', code=k, what=KINDS.get(k),
+                                   cases=[dict(id=0, kind='key', spec=r['spec']), dict(id=1, kind='key', spec=partner['spec'])],
+                                   observed=[r['obs'], partner['obs']]), name='replay_c%d.json' % c)
+            else:
+                run.violation(dict(kind='monitor', code=k, what=KINDS.get(k), case=dict(kind=r['kind'], spec=r['spec']), observed=r['obs'],
+                                   explanation='this key case collides with another case of the same run'), name='replay_c%d.json' % c)
             continue
         small = shrink(run.work, r, k)
         rs = run_specs(run.work, [dict(id=0, **small)], 'final')
@@ -497,6 +613,8 @@ def report_case_failures(run, results, ff, mm):
 
 def check(run):
     pr = run.proof_stage(extra_modules=['theories/Props/C19State.v'])
+    if not run.quick():
+        run.coqchk_stage()
     if 'translator failed' in (pr.get('build_log') or '') or 'translator' in (pr.get('build_log') or '')[:200]:
         run.violation(dict(kind='translator-failed', log=pr['build_log'][-3000:],
                            explanation='a key builder / ABI schema of /repo is outside the subset the translator understands: '
@@ -511,9 +629,13 @@ def check(run):
         run.coverage['harness_note'] = ('host.ParseClientKey / host.ParseConsensusStateKey do not exist in this tree: harness built with '
                                         'tag c19_noparsekey (their direct cases report a panic)')
     st, slog = states(run.work)
+    # the directed corpus (harness/cmd/c19/corpus.go, ~290 seed-independent cases) runs first, then n generated cases
     n = run.budget(500, 20000)
     outp = os.path.join(run.work, 'out.jsonl')
     rc, o = vlib.run_harness('c19', ['-seed', run.seed, '-n', n, '-out', outp])
+    import re as _re
+    mcorp = _re.search(r'c19: (\d+) corpus cases', o or '')
+    run.coverage['corpus_cases'] = int(mcorp.group(1)) if mcorp else None
     if rc != 0:
         run.violation(dict(kind='harness-crashed', log=o[-3000:]), no_input=True)
         return run.finish()
